@@ -313,7 +313,7 @@ class Assembler:
         pos = s
         for (a, _, b, new, lines) in ev:
             if a < last:
-                raise LostAnchor('overlapping edits in %s near offset %d' % (sf.path, a))
+                raise LostAnchor("overlapping edits in %s near offset %d: %r" % (sf.path, a, [(x[0], x[2], x[3]) for x in ev]))
             if a > pos:
                 self._emit_repo(sf, pos, a, origin_repo)
             if lines is None:
